@@ -367,12 +367,28 @@ def P15():
     )
 
 
+def P16():
+    """Singular process Jacobian (x3 is an exact function of x and v) and a sensor with MORE readings than states."""
+    x, v, x3, a, dt = V("x"), V("v"), V("x3"), V("a"), V("dt")
+    return Program(
+        id="P16-tall-singular",
+        state=["v", "x3", "x"],
+        control=["a"],
+        calibration=[],
+        update={"x": x + v * dt, "v": v + a * dt, "x3": 3 * (x + v * dt)},
+        process_noise={"a": 0.25},
+        sensors={"quad": {"r2": x + v, "r0": x, "r3": x3 - x, "r1": v}},
+        sensor_noise={"quad": {"r2": 0.5, "r0": 0.25, "r3": 0.75, "r1": 1.0}},
+        note="4 readings on 3 states; after one prediction the covariance is singular (exactly correlated states)",
+    )
+
+
 def quick_programs():
     return [P1(), P3(), P8()]
 
 
 def all_fixed():
-    return [P1(), P2(), P3(), P7(), P8(), P10(), P12(), P13(), P14(), P15()]
+    return [P1(), P2(), P3(), P7(), P8(), P10(), P12(), P13(), P14(), P15(), P16()]
 
 
 def with_noise(p, process=None, sensor=None, pid=None):
